@@ -45,16 +45,17 @@ type Conn struct {
 }
 
 type Node struct {
-	c        *Cluster
-	Idx      int
-	ID       string
-	Addr     string
-	Store    *refredis.Store
-	MasterOf int // -1: master
-	Up       bool
-	Silent   bool // accepts connections and requests, never answers
-	Stalled  bool // executes requests but holds the replies back until Unstall (a node that is slow for a while)
-	Conns    []*Conn
+	c           *Cluster
+	Idx         int
+	ID          string
+	Addr        string
+	Store       *refredis.Store
+	MasterOf    int // -1: master
+	Up          bool
+	Silent      bool // accepts connections and requests, never answers
+	Stalled     bool // executes requests but holds the replies back until Unstall (a node that is slow for a while)
+	ClusterDown bool // the node considers the cluster down (it lost sight of the majority): keyed commands are refused
+	Conns       []*Conn
 	// View is this node's belief about slot owners used for CLUSTER NODES (nil: the truth)
 	View []int16
 	// migration state (meaningful on masters)
@@ -280,6 +281,10 @@ func (n *Node) exec(nc *Conn, args [][]byte) (resp2.Value, bool) {
 	ki := refredis.KeyIndex(name)
 	if len(args) <= ki {
 		return resp2.E("ERR wrong number of arguments for '" + name + "' command"), true
+	}
+	if n.ClusterDown {
+		c.Down++
+		return resp2.E("CLUSTERDOWN The cluster is down"), false
 	}
 	key := args[ki]
 	slot := Slot(key)
